@@ -362,12 +362,153 @@ func init() {
 			}
 		}
 		for seq := 0; seq < c.N; seq++ {
-			crashSequence(c, seq)
+			crashSequence(c, seq, nil)
+		}
+		// long histories: one chain per 25 sequences grown across every depth threshold of common/db/versioned_db.go
+		if c.Args["deep"] != "off" {
+			for i := 0; i < 1+c.N/100; i++ {
+				crashSequence(c, c.N+i, crashDeepSchedule(c, i))
+			}
 		}
 	})
 }
 
-func crashSequence(c *Ctx, seq int) {
+// crashStep: one step of a scheduled history. full = the whole crash machinery (image per cut point, continuation, torn
+// images); otherwise only the journal is watched (one operation = one journal record, images only if there are more).
+type crashStep struct {
+	kind string // "add", "pop", "readd" (re-deliver the momentum that was rolled back last)
+	full bool
+}
+
+// crashDepthThresholds: every depth the code of the versioned store treats specially (cache window, sizes of the two cache
+// levels), their sum and the double window - read from the package, not written down here.
+func crashDepthThresholds() []int {
+	l1, l2, md := db.CacheConstantsVerif()
+	set := map[int]bool{}
+	for _, t := range []int{l2, md, l1, l1 + l2, 2 * md} {
+		if t >= 3 && t <= 1200 {
+			set[t] = true
+		}
+	}
+	var out []int
+	for t := range set {
+		out = append(out, t)
+	}
+	sort.Ints(out)
+	return out
+}
+
+// crashDeepSchedule: small commits up to two past the largest threshold; around every threshold t the commits of height
+// t-1 … t+2 get the whole crash machinery, the commit of height t+1 is also rolled back and delivered again; every
+// variant > 0 shifts the windows by one so that successive deep sequences do not repeat the same heights only.
+func crashDeepSchedule(c *Ctx, variant int) []crashStep {
+	ts := crashDepthThresholds()
+	if len(ts) == 0 {
+		return nil
+	}
+	inWindow := func(h int) (bool, bool) {
+		for _, t := range ts {
+			t += variant % 3
+			if h >= t-1 && h <= t+2 {
+				return true, h == t+1
+			}
+		}
+		return false, false
+	}
+	var sched []crashStep
+	top := ts[len(ts)-1] + 2 + variant%3
+	for h := 1; h <= top; h++ {
+		full, cycle := inWindow(h)
+		sched = append(sched, crashStep{kind: "add", full: full})
+		if cycle {
+			sched = append(sched, crashStep{kind: "pop", full: true}, crashStep{kind: "readd", full: true})
+		} else if !full && c.R.Intn(40) == 0 {
+			// a rollback and the same momentum again somewhere between the windows (journal watched only)
+			sched = append(sched, crashStep{kind: "pop"}, crashStep{kind: "readd"})
+		}
+	}
+	return sched
+}
+
+// logicalDump: a raw dump without the deletion markers of the frontier key space (a rolled back key stays in leveldb as
+// the empty raw value; a node that never saw the rolled back momentum does not hold the key at all)
+func logicalDump(raw string) string {
+	var sb strings.Builder
+	for _, line := range strings.Split(raw, "\n") {
+		if strings.HasPrefix(line, "55") && strings.HasSuffix(line, "=-") {
+			continue
+		}
+		if line != "" {
+			sb.WriteString(line)
+			sb.WriteByte('\n')
+		}
+	}
+	return sb.String()
+}
+
+// firstDiffLine: the first line in which two dumps differ (for messages)
+func firstDiffLine(a, b string) string {
+	la, lb := strings.Split(a, "\n"), strings.Split(b, "\n")
+	for i := 0; i < len(la) || i < len(lb); i++ {
+		var x, y string
+		if i < len(la) {
+			x = la[i]
+		}
+		if i < len(lb) {
+			y = lb[i]
+		}
+		if x != y {
+			if len(x) > 120 {
+				x = x[:120] + "…"
+			}
+			if len(y) > 120 {
+				y = y[:120] + "…"
+			}
+			return fmt.Sprintf("entry %d: [%s] vs [%s]", i, x, y)
+		}
+	}
+	return "equal"
+}
+
+func errText(err error) string {
+	if err == nil {
+		return "ok"
+	}
+	return err.Error()
+}
+
+type crashCommit struct {
+	prev, id types.HashHeight
+	ops      []kvOp
+}
+
+func crashMkTx(cm crashCommit) *vTx {
+	p := db.NewPatch()
+	for _, o := range cm.ops {
+		if o.del {
+			p.Delete(o.k)
+		} else {
+			p.Put(o.k, o.v)
+		}
+	}
+	return &vTx{commits: []db.Commit{&vCommit{id: cm.id, prev: cm.prev}}, patch: p}
+}
+
+// crashDeliver hands a commit to a manager the way the chain layer does and states the acknowledgement clause: a delivery
+// on top of the current frontier that is acknowledged (nil error) must have moved the frontier pointer to the commit.
+func crashDeliver(mm db.Manager, cm crashCommit) error {
+	was := db.GetFrontierIdentifier(mm.Frontier())
+	if err := mm.Add(crashMkTx(cm)); err != nil {
+		return err
+	}
+	now := db.GetFrontierIdentifier(mm.Frontier())
+	if was == cm.prev && now != cm.id {
+		return fmt.Errorf("delivery of %s on its parent %s was acknowledged without error but the frontier pointer is %s", idStr(cm.id), idStr(cm.prev), idStr(now))
+	}
+	return nil
+}
+
+func crashSequence(c *Ctx, seq int, sched []crashStep) {
 	dir, err := os.MkdirTemp("", "zvcrash")
 	if err != nil {
 		panic(err)
@@ -381,7 +522,8 @@ func crashSequence(c *Ctx, seq int) {
 		c.Fail("crash seq=%d: %v", seq, err)
 		return
 	}
-	chain := []types.HashHeight{}
+	deep := sched != nil
+	var chain []crashCommit
 	counter := uint64(seq)<<32 | 1<<31
 	newHash := func() types.Hash {
 		counter++
@@ -394,7 +536,7 @@ func crashSequence(c *Ctx, seq int) {
 		if len(chain) == 0 {
 			return types.ZeroHashHeight
 		}
-		return chain[len(chain)-1]
+		return chain[len(chain)-1].id
 	}
 	verKey := func(id types.HashHeight) string {
 		if id.IsZero() {
@@ -404,6 +546,9 @@ func crashSequence(c *Ctx, seq int) {
 	}
 	genOps := func(min int) []kvOp {
 		n := min + c.R.Intn(5)
+		if deep {
+			n = min + c.R.Intn(3)
+		}
 		ops := make([]kvOp, 0, n)
 		for i := 0; i < n; i++ {
 			if c.R.Intn(4) == 0 {
@@ -413,17 +558,6 @@ func crashSequence(c *Ctx, seq int) {
 			}
 		}
 		return ops
-	}
-	mkTx := func(prev, id types.HashHeight, ops []kvOp) *vTx {
-		p := db.NewPatch()
-		for _, o := range ops {
-			if o.del {
-				p.Delete(o.k)
-			} else {
-				p.Put(o.k, o.v)
-			}
-		}
-		return &vTx{commits: []db.Commit{&vCommit{id: id, prev: prev}}, patch: p}
 	}
 	snapshotRaw := func() (string, bool) {
 		img, err := crashImage(dir, journal, -1)
@@ -439,27 +573,70 @@ func crashSequence(c *Ctx, seq int) {
 		}
 		return raw, true
 	}
+	// runOn: an image of the live directory with the journal cut at `cut` (-1: not cut = the node that did not crash) is
+	// reopened by the real manager, the script runs on it, the manager is stopped and the whole raw key space returned.
+	runOn := func(cut int64, script func(mm db.Manager) error) (raw string, serr error, ok bool) {
+		img, err := crashImage(dir, journal, cut)
+		defer os.RemoveAll(img)
+		if err != nil {
+			return "", nil, false
+		}
+		if p := safely(func() {
+			mm := db.NewLevelDBManager(img)
+			serr = script(mm)
+			mm.Stop()
+		}); p != "" {
+			return "", fmt.Errorf("panic: %s", firstLine(p)), true
+		}
+		raw, err = rawDump(img)
+		return raw, serr, err == nil
+	}
 
+	var lastPopped *crashCommit     // the momentum rolled back last, while its parent is still the frontier
+	addedRaw := map[string]string{} // identifier -> raw key space right after its (first) commit, small states only
+	addedStep := map[string]int{}   // identifier -> step of its latest commit
+	poppedStep := map[string]int{}  // identifier -> step of its latest rollback
 	nops := 8 + c.R.Intn(8)
+	if deep {
+		nops = len(sched)
+	}
 	bigAt := -1
-	if seq%6 == 2 {
+	if seq%6 == 2 && !deep {
 		bigAt = 2 + c.R.Intn(3) // one unusually large commit (megabytes) in this sequence, later rolled back
 	}
 	for step := 0; step < nops; step++ {
-		isPop := len(chain) > 0 && c.R.Intn(3) == 0
-		if step == bigAt {
-			isPop = false
-		}
-		if step == bigAt+1 && bigAt >= 0 {
-			isPop = true // roll the large commit back: the rollback is as large as the commit
+		kind, full := "add", true
+		if deep {
+			kind, full = sched[step].kind, sched[step].full
+			if kind == "pop" && len(chain) == 0 || kind == "readd" && (lastPopped == nil || lastPopped.prev != frontierID()) {
+				kind = "add"
+			}
+		} else {
+			if len(chain) > 0 && c.R.Intn(3) == 0 {
+				kind = "pop"
+			}
+			if step == bigAt {
+				kind = "add"
+			}
+			if step == bigAt+1 && bigAt >= 0 {
+				kind = "pop" // roll the large commit back: the rollback is as large as the commit
+			}
+			// the momentum that was rolled back last is delivered again - same identifier, same content (the network settled
+			// on its branch after all); its descendants follow as ordinary commits of the later steps
+			if kind == "add" && lastPopped != nil && lastPopped.prev == frontierID() && c.R.Intn(2) == 0 {
+				kind = "readd"
+			}
 		}
 		if j2, err := activeJournal(dir); err == nil && j2 != journal {
 			journal = j2 // leveldb rotated its journal (memtable flushed)
 			c.Hit("journal-rotated")
 		}
-		before, ok := snapshotRaw()
-		if !ok {
-			return
+		var before string
+		if full {
+			var ok bool
+			if before, ok = snapshotRaw(); !ok {
+				return
+			}
 		}
 		endsBefore, _, err := journalRecords(journal)
 		if err != nil {
@@ -467,76 +644,126 @@ func crashSequence(c *Ctx, seq int) {
 			return
 		}
 		var opDesc string
-		var redo func(mm db.Manager) error     // the same operation, for re-delivery on an image in the before-state
-		var compete func(mm db.Manager) error  // a competing operation from the before-state
+		var redo func(mm db.Manager) error    // the same operation, for re-delivery on an image in the before-state
+		var compete func(mm db.Manager) error // a competing operation from the before-state
+		// cycle: on a node in the AFTER-state of the operation: roll the momentum back (if the operation was its commit),
+		// deliver the very same momentum again, then a descendant. never: the descendant alone on a node that never rolled back.
+		var cycle, never func(mm db.Manager) error
+		var neverOnBefore bool       // `never` runs on the before-state (rollback) / on the after-state (commit)
+		var reached types.HashHeight // the frontier the operation leaves
 		prev := frontierID()
-		if isPop {
+		var cur crashCommit
+		if kind == "pop" {
 			opDesc = "vdb-pop"
 			if err := m.Pop(); err != nil {
 				c.Fail("crash seq=%d: pop failed: %v", seq, err)
 				return
 			}
+			popped := chain[len(chain)-1]
 			chain = chain[:len(chain)-1]
+			lastPopped = &popped
+			poppedStep[idStr(popped.id)] = step
+			reached = frontierID()
 			redo = func(mm db.Manager) error { return mm.Pop() }
-			cid := types.HashHeight{Height: prev.Height + 1, Hash: newHash()}
-			cops := genOps(1)
-			compete = func(mm db.Manager) error { return mm.Add(mkTx(prev, cid, cops)) }
+			comp := crashCommit{prev: prev, id: types.HashHeight{Height: prev.Height + 1, Hash: newHash()}, ops: genOps(1)}
+			compete = func(mm db.Manager) error { return mm.Add(crashMkTx(comp)) }
+			desc := crashCommit{prev: popped.id, id: types.HashHeight{Height: popped.id.Height + 1, Hash: newHash()}, ops: genOps(1)}
+			cycle = func(mm db.Manager) error {
+				if db.GetFrontierIdentifier(mm.Frontier()) == popped.id {
+					if err := mm.Pop(); err != nil {
+						return err
+					}
+				}
+				if err := crashDeliver(mm, popped); err != nil {
+					return err
+				}
+				return crashDeliver(mm, desc)
+			}
+			never = func(mm db.Manager) error { return crashDeliver(mm, desc) }
+			neverOnBefore = true
 			c.Hit("pop")
 		} else {
-			id := types.HashHeight{Height: prev.Height + 1, Hash: newHash()}
-			ops := genOps(0)
-			if c.R.Intn(3) == 0 {
-				ops = append(ops, genOps(3)...)
+			if kind == "readd" {
+				cur = *lastPopped
+				c.Hit("add-redelivered-after-rollback")
+			} else {
+				cur = crashCommit{prev: prev, id: types.HashHeight{Height: prev.Height + 1, Hash: newHash()}}
+				ops := genOps(0)
+				if !deep && c.R.Intn(3) == 0 {
+					ops = append(ops, genOps(3)...)
+				}
+				if deep {
+					// small
+				} else if step == bigAt {
+					// 1–1.5 MiB of values (a 2–3 MiB batch with the redo record: below goleveldb's 4 MiB write buffer, so it goes
+					// through the journal); every third of these is three times larger and takes goleveldb's large-batch
+					// transaction path, which bypasses the journal (only the end points can be examined then)
+					nk := 256 + c.R.Intn(128)
+					if seq%18 == 2 {
+						nk *= 3
+					}
+					for i := 0; i < nk; i++ {
+						v := make([]byte, 4096)
+						c.R.Read(v)
+						k := append([]byte{4, 9}, byte(i>>8), byte(i))
+						ops = append(ops, kvOp{k: k, v: v})
+					}
+					c.Hit("add-megabytes")
+				} else if c.R.Intn(4) == 0 {
+					// the size of a momentum's batch on a busy ledger (redo + undo + keys: 40-250 KiB): the journal record spans
+					// 2-8 blocks of the journal file, each handed to the file with its own write(2)
+					total := 12000 + c.R.Intn(70000)
+					for i := 0; total > 0; i++ {
+						v := make([]byte, 300+c.R.Intn(6000))
+						c.R.Read(v)
+						ops = append(ops, kvOp{k: append([]byte{4, 7}, byte(i>>8), byte(i)), v: v})
+						total -= len(v)
+					}
+					c.Hit("add-tens-of-kilobytes")
+				} else if c.R.Intn(10) == 0 {
+					// a few hundred kilobytes
+					for i := 0; i < 40+c.R.Intn(60); i++ {
+						v := make([]byte, 2048+c.R.Intn(4096))
+						c.R.Read(v)
+						ops = append(ops, kvOp{k: append([]byte{4, 8}, byte(i)), v: v})
+					}
+					c.Hit("add-hundreds-of-kilobytes")
+				}
+				cur.ops = ops
 			}
-			if step == bigAt {
-				// 1–1.5 MiB of values (a 2–3 MiB batch with the redo record: below goleveldb's 4 MiB write buffer, so it goes
-				// through the journal); every third of these is three times larger and takes goleveldb's large-batch
-				// transaction path, which bypasses the journal (only the end points can be examined then)
-				nk := 256 + c.R.Intn(128)
-				if seq%18 == 2 {
-					nk *= 3
-				}
-				for i := 0; i < nk; i++ {
-					v := make([]byte, 4096)
-					c.R.Read(v)
-					k := append([]byte{4, 9}, byte(i>>8), byte(i))
-					ops = append(ops, kvOp{k: k, v: v})
-				}
-				c.Hit("add-megabytes")
-			} else if c.R.Intn(4) == 0 {
-				// the size of a momentum's batch on a busy ledger (redo + undo + keys: 40-250 KiB): the journal record spans
-				// 2-8 blocks of the journal file, each handed to the file with its own write(2)
-				total := 12000 + c.R.Intn(70000)
-				for i := 0; total > 0; i++ {
-					v := make([]byte, 300+c.R.Intn(6000))
-					c.R.Read(v)
-					ops = append(ops, kvOp{k: append([]byte{4, 7}, byte(i>>8), byte(i)), v: v})
-					total -= len(v)
-				}
-				c.Hit("add-tens-of-kilobytes")
-			} else if c.R.Intn(10) == 0 {
-				// a few hundred kilobytes
-				for i := 0; i < 40+c.R.Intn(60); i++ {
-					v := make([]byte, 2048+c.R.Intn(4096))
-					c.R.Read(v)
-					ops = append(ops, kvOp{k: append([]byte{4, 8}, byte(i)), v: v})
-				}
-				c.Hit("add-hundreds-of-kilobytes")
-			}
-			opDesc = fmt.Sprintf("vdb-add %s %s %s", verKey(prev), idStr(id), opsString(ops, false))
-			if err := m.Add(mkTx(prev, id, ops)); err != nil {
-				c.Fail("crash seq=%d: add failed: %v", seq, err)
+			lastPopped = nil
+			opDesc = fmt.Sprintf("vdb-add %s %s %s", verKey(cur.prev), idStr(cur.id), opsString(cur.ops, false))
+			if err := crashDeliver(m, cur); err != nil {
+				c.Fail("crash seq=%d step=%d height=%d op=[%.300s]: %v", seq, step, cur.id.Height, opDesc, err)
 				return
 			}
-			chain = append(chain, id)
-			redo = func(mm db.Manager) error { return mm.Add(mkTx(prev, id, ops)) }
-			cid := types.HashHeight{Height: prev.Height + 1, Hash: newHash()}
-			cops := genOps(1)
-			compete = func(mm db.Manager) error { return mm.Add(mkTx(prev, cid, cops)) }
+			chain = append(chain, cur)
+			reached = cur.id
+			this := cur
+			redo = func(mm db.Manager) error { return mm.Add(crashMkTx(this)) }
+			comp := crashCommit{prev: prev, id: types.HashHeight{Height: prev.Height + 1, Hash: newHash()}, ops: genOps(1)}
+			compete = func(mm db.Manager) error { return mm.Add(crashMkTx(comp)) }
+			desc := crashCommit{prev: this.id, id: types.HashHeight{Height: this.id.Height + 1, Hash: newHash()}, ops: genOps(1)}
+			cycle = func(mm db.Manager) error {
+				if db.GetFrontierIdentifier(mm.Frontier()) != this.id {
+					return fmt.Errorf("not in the after-state")
+				}
+				if err := mm.Pop(); err != nil {
+					return err
+				}
+				if err := crashDeliver(mm, this); err != nil {
+					return err
+				}
+				return crashDeliver(mm, desc)
+			}
+			never = func(mm db.Manager) error { return crashDeliver(mm, desc) }
 			c.Hit("add")
-			if len(ops) >= 2 {
+			if len(cur.ops) >= 2 {
 				c.Hit("add-multi-key")
 			}
+		}
+		if len(chain) > 0 {
+			c.Stats["max-height"] = maxInt(c.Stats["max-height"], int(chain[len(chain)-1].id.Height))
 		}
 		if j2, jerr := activeJournal(dir); jerr == nil && j2 != journal {
 			// leveldb froze its memtable and switched to a new journal during the operation
@@ -546,9 +773,12 @@ func crashSequence(c *Ctx, seq int) {
 			endsBefore = nil
 			c.Hit("journal-rotated-during-op")
 		}
-		after, ok := snapshotRaw()
-		if !ok {
-			return
+		var after string
+		if full {
+			var ok bool
+			if after, ok = snapshotRaw(); !ok {
+				return
+			}
 		}
 		endsAfter, payloads, err := journalRecords(journal)
 		if err != nil {
@@ -567,7 +797,7 @@ func crashSequence(c *Ctx, seq int) {
 			plan = append(plan, writesString(ws))
 		}
 		c.Emit("%s | ok", opDesc)
-		if na-nb == 0 && before != after {
+		if full && na-nb == 0 && before != after {
 			// goleveldb wrote the batch as a table-file transaction (batch larger than the write buffer): no journal record
 			c.Emit("crash-plan-large | ok")
 			c.Hit("large-batch-transaction")
@@ -575,28 +805,82 @@ func crashSequence(c *Ctx, seq int) {
 		}
 		c.Emit("crash-plan | %d %s", na-nb, strings.Join(plan, " ; "))
 		c.HitN("journal-writes", na-nb)
-
-		// crash-free reference results of re-delivery / competition from the before-state
-		refImage := func(f func(mm db.Manager) error) (string, bool) {
-			cut := int64(0)
-			if nb > 0 {
-				cut = endsBefore[nb-1]
-			}
-			img, err := crashImage(dir, journal, cut)
-			defer os.RemoveAll(img)
-			if err != nil {
-				return "", false
-			}
-			mm := db.NewLevelDBManager(img)
-			ferr := f(mm)
-			mm.Stop()
-			if ferr != nil {
-				return "", false
-			}
-			raw, err := rawDump(img)
-			return raw, err == nil
+		cutBefore := int64(0)
+		if nb > 0 {
+			cutBefore = endsBefore[nb-1]
 		}
-		competeRef, haveCompete := refImage(compete)
+		where := fmt.Sprintf("crash seq=%d step=%d height=%d op=[%.300s]", seq, step, reached.Height, opDesc)
+
+		if !full {
+			// journal watched only: one operation = one journal record. When there are more, the images between the records are
+			// materialised and compared with the state before / after, like in the full mode.
+			c.Hit("journal-only-step")
+			if na-nb != 1 {
+				if na-nb > 1 {
+					b0, _, ok0 := runOn(cutBefore, func(db.Manager) error { return nil })
+					a0, _, ok1 := runOn(-1, func(db.Manager) error { return nil })
+					for k := nb + 1; k < na && ok0 && ok1; k++ {
+						r0, _, ok2 := runOn(endsAfter[k-1], func(db.Manager) error { return nil })
+						if ok2 && r0 != b0 && r0 != a0 {
+							c.Fail("%s: process death after write %d of %d leaves a store that is neither the state before nor the state after the operation (differs from the state after: %s)", where, k-nb, na-nb, firstDiffLine(r0, a0))
+							return
+						}
+					}
+				}
+				c.Fail("%s: the operation reached leveldb as %d journal records (write calls) instead of one: [%.400s]", where, na-nb, strings.Join(plan, " ; "))
+				return
+			}
+			continue
+		}
+		if kind != "pop" {
+			key := idStr(cur.id)
+			if first, seen := addedRaw[key]; seen && kind == "readd" {
+				// the momentum is back: the store must again be what it was after its first delivery - the whole raw key space
+				// when nothing but its own rollback happened in between, else everything but the deletion markers
+				if addedStep[key]+1 == poppedStep[key] && poppedStep[key]+1 == step {
+					if after != first {
+						c.Fail("%s: the momentum was committed, rolled back and delivered again: the store differs from the store after its first delivery (%s)", where, firstDiffLine(after, first))
+						return
+					}
+					c.Hit("redelivered-after-rollback-raw-equal")
+				} else if logicalDump(after) != logicalDump(first) {
+					c.Fail("%s: the momentum was committed, rolled back and delivered again later: the store differs from the store after its first delivery (%s)", where, firstDiffLine(logicalDump(after), logicalDump(first)))
+					return
+				} else {
+					c.Hit("redelivered-after-rollback-logical-equal")
+				}
+			} else if len(after) < 1<<20 {
+				addedRaw[key] = after
+			}
+			addedStep[key] = step
+		}
+
+		// crash-free reference results of re-delivery / competition
+		competeRef, _, haveCompete := runOn(cutBefore, compete)                  // from the before-state
+		competeRefAfter, competeErrAfter, haveCompeteAfter := runOn(-1, compete) // from the after-state (stale or unknown parent there)
+		var redoRefAfter string
+		var redoErrAfter error
+		haveRedoAfter := false
+		if kind != "pop" {
+			redoRefAfter, redoErrAfter, haveRedoAfter = runOn(-1, redo) // the commit delivered twice to a node that did not crash
+		}
+		cycleRef, cerr, haveCycle := runOn(-1, cycle)
+		if haveCycle && cerr != nil {
+			c.Fail("%s: on a node that did not crash, rolling the momentum back and delivering the same momentum and a descendant again fails: %v", where, cerr)
+			return
+		}
+		neverCut := int64(-1)
+		if neverOnBefore {
+			neverCut = cutBefore
+		}
+		neverRef, nerr, haveNever := runOn(neverCut, never)
+		if haveCycle && haveNever && nerr == nil && cycleRef != neverRef {
+			c.Fail("%s: a node that rolled the momentum back and was given the same momentum and a descendant again differs from a node that never rolled back (%s)", where, firstDiffLine(cycleRef, neverRef))
+			return
+		}
+		if haveCycle && haveNever {
+			c.Hit("rollback-redeliver-descendant-equals-never-rolled-back")
+		}
 
 		// every cut point: after k of the operation's writes, k = 0 … n
 		for k := nb; k <= na; k++ {
@@ -613,7 +897,7 @@ func crashSequence(c *Ctx, seq int) {
 			raw, err := rawDump(img)
 			if err != nil {
 				os.RemoveAll(img)
-				c.Fail("crash seq=%d op=[%s] cut after write %d/%d: image does not open: %v", seq, opDesc, k-nb, na-nb, err)
+				c.Fail("%s cut after write %d/%d: image does not open: %v", where, k-nb, na-nb, err)
 				return
 			}
 			c.Hit("crash-image")
@@ -623,61 +907,123 @@ func crashSequence(c *Ctx, seq int) {
 			isBefore, isAfter := raw == before, raw == after
 			if !isBefore && !isAfter {
 				os.RemoveAll(img)
-				c.Fail("crash seq=%d op=[%s]: process death after write %d of %d leaves a store that is neither the state before nor the state after the operation", seq, opDesc, k-nb, na-nb)
+				c.Fail("%s: process death after write %d of %d leaves a store that is neither the state before nor the state after the operation (differs from the state after: %s)", where, k-nb, na-nb, firstDiffLine(raw, after))
 				return
 			}
 			if msg := imageConsistency(img); msg != "" {
 				os.RemoveAll(img)
-				c.Fail("crash seq=%d op=[%s]: process death after write %d of %d: %s", seq, opDesc, k-nb, na-nb, msg)
+				c.Fail("%s: process death after write %d of %d: %s", where, k-nb, na-nb, msg)
 				return
 			}
 			os.RemoveAll(img)
+			at := fmt.Sprintf("process death at write %d of %d", k-nb, na-nb)
 			// continue from the crash image: re-deliver the same operation / a competing one
 			if isBefore && !isAfter {
-				img2, _ := crashImage(dir, journal, cut)
-				mm := db.NewLevelDBManager(img2)
-				rerr := redo(mm)
-				mm.Stop()
-				raw2, derr := rawDump(img2)
-				os.RemoveAll(img2)
-				if rerr != nil || derr != nil || raw2 != after {
-					c.Fail("crash seq=%d op=[%s]: re-delivery after process death at write %d of %d does not reach the crash-free state (err=%v)", seq, opDesc, k-nb, na-nb, rerr)
+				raw2, rerr, ok := runOn(cut, redo)
+				if rerr != nil || !ok || raw2 != after {
+					c.Fail("%s: re-delivery after %s does not reach the crash-free state (err=%v)", where, at, rerr)
 					return
 				}
 				c.Hit("redelivered")
 				if haveCompete {
-					img3, _ := crashImage(dir, journal, cut)
-					mm := db.NewLevelDBManager(img3)
-					cerr := compete(mm)
-					mm.Stop()
-					raw3, derr := rawDump(img3)
-					os.RemoveAll(img3)
-					if cerr != nil || derr != nil || raw3 != competeRef {
-						c.Fail("crash seq=%d op=[%s]: a competing commit after process death at write %d of %d does not reach the crash-free state (err=%v)", seq, opDesc, k-nb, na-nb, cerr)
+					raw3, cerr, ok := runOn(cut, compete)
+					if cerr != nil || !ok || raw3 != competeRef {
+						c.Fail("%s: a competing commit after %s does not reach the crash-free state (err=%v)", where, at, cerr)
 						return
 					}
 					c.Hit("competing-delivered")
 				}
 			}
+			if isAfter && !isBefore {
+				if haveRedoAfter {
+					raw2, rerr, ok := runOn(cut, redo)
+					if errText(rerr) != errText(redoErrAfter) || !ok || raw2 != redoRefAfter {
+						c.Fail("%s: the commit delivered again after %s (store already in the after-state) does not reach the state of a node that did not crash (err=%v; %s)", where, at, rerr, firstDiffLine(raw2, redoRefAfter))
+						return
+					}
+					c.Hit("redelivered-on-after-state")
+				}
+				if haveCompeteAfter {
+					raw3, cerr, ok := runOn(cut, compete)
+					if errText(cerr) != errText(competeErrAfter) || !ok || raw3 != competeRefAfter {
+						c.Fail("%s: a competing commit after %s (store already in the after-state) does not reach the state of a node that did not crash (err=%v)", where, at, cerr)
+						return
+					}
+					c.Hit("competing-on-after-state")
+				}
+			}
+			// complete the operation if need be, then: roll back (commit) / - (rollback), the SAME momentum again, a descendant
+			if haveCycle {
+				raw4, yerr, ok := runOn(cut, func(mm db.Manager) error {
+					if isBefore && !isAfter {
+						if err := redo(mm); err != nil {
+							return err
+						}
+					}
+					return cycle(mm)
+				})
+				if yerr != nil || !ok || raw4 != cycleRef {
+					c.Fail("%s: after %s the node is restarted, the operation completed, then the momentum is rolled back / delivered again with a descendant: this does not reach the state of a node that did not crash (err=%v; %s)", where, at, yerr, firstDiffLine(raw4, cycleRef))
+					return
+				}
+				c.Hit("rollback-redeliver-descendant-on-image")
+			}
+		}
+		// one operation = one journal record (write call); more than one is reported here if the images between them happened to be admissible
+		if na-nb != 1 && before != after {
+			c.Fail("%s: the operation reached leveldb as %d journal records (write calls) instead of one: [%.400s]", where, na-nb, strings.Join(plan, " ; "))
+			return
 		}
 		// process death inside one of the operation's writes (between the write(2) calls of a journal record, short writes)
 		if na > nb && c.Args["torn"] != "off" {
-			start := int64(0)
-			if nb > 0 {
-				start = endsBefore[nb-1]
-			}
-			if !crashTornImages(c, seq, dir, journal, opDesc, start, endsAfter[na-1], before, after, redo) {
+			if !crashTornImages(c, seq, dir, journal, opDesc, cutBefore, endsAfter[na-1], before, after, redo) {
 				return
 			}
 		}
 		// the journal layer itself: goleveldb's reader, the harness parser and the Lean model on the same bytes
-		if na > nb && c.Args["journal"] != "off" {
-			start := int64(0)
-			if nb > 0 {
-				start = endsBefore[nb-1]
-			}
-			crashJournalLines(c, seq, step, journal, start, endsAfter[na-1])
+		if na > nb && c.Args["journal"] != "off" && !deep {
+			crashJournalLines(c, seq, step, journal, cutBefore, endsAfter[na-1])
 		}
+	}
+
+	// a fresh node that is only ever given the final chain: same frontier pointer, same keys, same undo / redo records -
+	// the deletion markers the rollbacks of this history left behind are the only admissible difference
+	if len(chain) > 0 {
+		live, ok := snapshotRaw()
+		if !ok {
+			return
+		}
+		fdir, err := os.MkdirTemp(imageBase(), "zvfresh")
+		if err != nil {
+			return
+		}
+		defer os.RemoveAll(fdir)
+		var ferr error
+		if p := safely(func() {
+			fm := db.NewLevelDBManager(fdir)
+			defer fm.Stop()
+			for _, cm := range chain {
+				if ferr = crashDeliver(fm, cm); ferr != nil {
+					return
+				}
+			}
+		}); p != "" {
+			ferr = fmt.Errorf("panic: %s", firstLine(p))
+		}
+		if ferr != nil {
+			c.Fail("crash seq=%d: a fresh node refuses the final chain of the history: %v", seq, ferr)
+			return
+		}
+		fresh, err := rawDump(fdir)
+		if err != nil {
+			c.Fail("crash seq=%d: fresh node: %v", seq, err)
+			return
+		}
+		if logicalDump(fresh) != logicalDump(live) {
+			c.Fail("crash seq=%d: after the whole history (%d momentums kept, rollbacks and re-deliveries on the way) the store differs from a fresh node that was only given the final chain (%s)", seq, len(chain), firstDiffLine(logicalDump(live), logicalDump(fresh)))
+			return
+		}
+		c.Hit("final-chain-equals-fresh-node")
 	}
 }
 
